@@ -39,9 +39,13 @@ HOOK_DEFS = [
 
 class Build:
     def __init__(self, name, harness, flavor=None, cds=False, defines=(), extra_repo=(), native=False,
-                 builtins=False):
+                 builtins=False, whitebox=False):
         self.name, self.harness, self.flavor, self.cds = name, harness, flavor, cds
         self.defines, self.extra_repo, self.native, self.builtins = list(defines), list(extra_repo), native, builtins
+        # whitebox: the harness #includes the flavor's main source file (access to its static registry)
+        self.whitebox = whitebox
+        if whitebox:
+            self.defines.append("-DGP_WHITEBOX")
 
 
 class Job:
@@ -94,6 +98,8 @@ def compile_all(bdir, builds):
             open(os.path.join(specinc, dst), "w").write(t)
     for b in builds:
         fsrcs, fdefs = FLAVOR_SRCS[b.flavor]
+        if b.whitebox:
+            fsrcs = fsrcs[1:]
         srcs = list(COMMON_SRCS) + fsrcs + (CDS_SRCS if b.cds else []) + b.extra_repo
         objs = []
         flags = inst + fdefs + b.defines + (["-DCONFIG_RCU_USE_ATOMIC_BUILTINS"] if b.builtins else [])
